@@ -13,7 +13,7 @@ PREAMBLE = ("From Coq Require Import NArith ZArith List. Import ListNotations. O
 RUNNER = "run_gchk"
 FIELDS = ["per pump: [0, end offset, chunk#, offset in chunk, len, anchor chunk#, data...] | [1, end offset] | [2]; then the cache [chunk#, cap, bump] | []",
           "at the end (after one more pump): cache; [live chunks, live bytes, every returned slice unchanged / unmoved / inside the chunk its anchor holds]"]
-SHARD = 300
+SHARD = 150
 
 parse = fam_chunk.parse
 
@@ -52,9 +52,9 @@ def stats(cases, obs):
 def generate(rng, n, tier, pid):
     out = fam_chunk.generate(rng, n, tier, pid)
     # long streams with small blocks: many refills cross arena chunk boundaries while earlier chunks are still held
-    for _ in range(max(4, n // 20)):
+    for _ in range(max(4, min(40, n // 20))):
         bs = rng.choice([1, 2, 3, 7, 64, 500, 4096])
-        s = fam_chunk.rand_stream(rng, rng.range(3000, 9000 if tier == "quick" else 20000))
+        s = fam_chunk.rand_stream(rng, rng.range(3000, 9000))
         out.append(f"{bs} {rng.choice(['none', 'used', 'rem1', 'rem5'])} {hexs(s)} " + " ".join(fam_chunk.rand_sched(rng)))
     return out
 
